@@ -8,6 +8,7 @@ with the same refusal answers.
 from __future__ import annotations
 
 import json
+import os
 import numpy as np
 
 import runs
@@ -425,8 +426,44 @@ def whole_update(ctx):
     ctx.corr(all(v <= 1e-8 for v in worst.values()), "whole update (adaptiveStep): step, proposal, recorded change, psi, supercurrent, normal current agree with TDGLSolver.update", dict(worst=worst))
 
 
+def solve_level_exhaustion(ctx):
+    """"exhausting the retries raises an error instead of continuing" for the WHOLE call: `tdgl.solve` on a strongly driven film
+    with a first step far too large must raise when the retry budget is too small (the same problem runs when the budget is
+    generous: the control), in the recorded stage and in the thermalisation stage, and at once with adaptivity off."""
+    import tdgl
+    import runs
+
+    dev = zoo.make_device("bar", ctx.rng, max_edge_length=0.9, gamma=10.0)
+    kw = dict(applied_vector_potential=0.3, terminal_currents=dict(source=8.0, drain=-8.0))
+    base = dict(solve_time=0.3, dt_init=3.0, dt_max=5.0, adaptive_time_step_multiplier=0.5, save_every=1)
+    ctl = tdgl.solve(dev, runs.options(adaptive=True, max_solve_retries=30, **base), **kw)
+    first_dt = float(np.asarray(ctl.dynamics.dt)[0])
+    needed = int(round(np.log(first_dt / 3.0) / np.log(0.5)))
+    ctx.count("solve_level_reductions_needed_by_the_first_step", needed)
+    first = None
+    for retries, adaptive, skip in ((0, True, 0.0), (1, True, 0.0), (max(needed - 2, 0), True, 0.0), (1, True, 0.2), (5, False, 0.0)):
+        if adaptive and retries + 1 >= needed:
+            continue
+        out = os.path.join(str(ctx.work), f"c12_exh_{retries}_{int(adaptive)}_{skip}.h5")
+        ctx.case(("solve-level-exhaustion", retries, adaptive, skip), nontrivial=True)
+        ctx.count("solve_level_exhaustion_runs")
+        try:
+            sol = tdgl.solve(dev, runs.options(adaptive=adaptive, max_solve_retries=retries, skip_time=skip, output_file=out, **base), **kw)
+        except RuntimeError as e:
+            if "failed to converge" in str(e):
+                continue
+            raise
+        rp = dict(max_solve_retries=retries, adaptive=adaptive, skip_time=skip, reductions_needed=needed,
+                  returned=("None" if sol is None else f"a Solution with data_range {getattr(sol, 'data_range', None)}"))
+        ctx.fail("exhaustion-swallowed-by-solve", f"tdgl.solve with max_solve_retries={retries}, adaptive={adaptive}, skip_time={skip}: the first step needs {needed} reductions of the time step, "
+                 f"yet no error was raised; it returned {rp['returned']}", rp)
+        first = first or dict(key="exhaustion-swallowed-by-solve", **rp)
+    return first
+
+
 def run(ctx):
     whole_update(ctx)
+    solve_level_exhaustion(ctx)
     seeded_bounds(ctx)
     screened(ctx)
     pinned_nonzero(ctx)
